@@ -639,6 +639,9 @@ func (g c17Gen) object() map[string]any {
 			}
 			md["labels"] = l
 		}
+		if g.chance(2) { // what a live object read from the API server carries besides
+			c17Live(md)
+		}
 		o["metadata"] = md
 	}
 	if !g.chance(6) {
@@ -830,6 +833,20 @@ func (g c17Gen) scenario() c17Scn {
 
 // ---------------------------------------------------------------- small exhaustive tables
 
+// c17Live adds the metadata a live object carries (probing must leave all of it alone).
+func c17Live(md map[string]any) {
+	md["uid"] = "7d2c1a52-0000-4000-8000-000000000001"
+	md["resourceVersion"] = "4711"
+	md["creationTimestamp"] = "2024-01-01T00:00:00Z"
+	md["annotations"] = map[string]any{"package-operator.run/revision": "3"}
+	md["finalizers"] = []any{"example.com/keep"}
+	md["ownerReferences"] = []any{map[string]any{"apiVersion": "package-operator.run/v1alpha1", "kind": "ObjectSet", "name": "os1", "uid": "u1", "controller": true}}
+	md["managedFields"] = []any{map[string]any{
+		"manager": "package-operator", "operation": "Apply", "apiVersion": "apps/v1", "time": "2024-01-01T00:00:00Z",
+		"fieldsType": "FieldsV1", "fieldsV1": map[string]any{"f:spec": map[string]any{"f:replicas": map[string]any{}}},
+	}}
+}
+
 func c17BaseObj(gen any, status any) map[string]any {
 	o := map[string]any{
 		"apiVersion": "apps/v1", "kind": "Deployment",
@@ -837,6 +854,7 @@ func c17BaseObj(gen any, status any) map[string]any {
 		"spec":     map[string]any{"replicas": int64(2)},
 	}
 	c17Set(o["metadata"].(map[string]any), "generation", gen)
+	c17Live(o["metadata"].(map[string]any))
 	c17Set(o, "status", status)
 	return o
 }
